@@ -101,7 +101,8 @@ CLAIMED = {
     "C15": ("TLA+ specs KeyStore (sequential key-storage contract) and KeyIdStore (threads with explicit linearisation points) "
             "model-checked by TLC; every sequential transition replayed on JwkMemStore/KeyIdMemstore (and a sample of "
             "them on StrongholdStorage); random histories trace-validated; real thread races checked for linearizability "
-            "by a TLC trace spec with silent Lin steps",
+            "by a TLC trace spec with silent Lin steps; the concurrent design's inductive invariant discharged by Apalache (16 threads, any "
+            "history) and proved by TLAPS (any set of threads)",
             "model_checking",
             "Sequential: TLC explores all histories up to 3 (quick) / 4 (thorough) issued key ids x all argument classes and "
             "checks freshness, inert deleted/never-issued ids and first-mapping-wins as invariants/action properties; each "
@@ -109,7 +110,11 @@ CLAIMED = {
             "signature verifies under its own key and under no other stored key). Concurrent: TLC explores every interleaving of "
             "Call/Lin/Ret for 3 threads x 5 plans (95 710 states) and shows the non-atomic design fails; races of 2..16 real "
             "threads on one KeyIdMemstore are recorded (call/return stamped by one atomic counter) and KeyIdStoreTrace decides "
-            "linearizability of every round by placing the Lin steps itself. BLS12-381 keys (generate_bbs) are slots that "
+            "linearizability of every round by placing the Lin steps itself. Unbounded design argument (spec/proofs): the "
+            "inductive invariant (map = 0 => wins = 0) /\\ (map # 0 => wins = 1 /\\ winner = map) of the atomic design with plans "
+            "generalised to arbitrary call sequences is checked by Apalache (Init => IndInv, IndInv /\\ Next => IndInv', IndInv => "
+            "AtMostOneWinner /\\ MappingIsWinners; 16 threads) and, in the thorough tier, proved by TLAPS for every set of threads "
+            "(28 obligations); the non-atomic design fails both. BLS12-381 keys (generate_bbs) are slots that "
             "never sign through JwkStorage::sign. The same drivers run over StrongholdStorage as key store and key-id "
             "store (second harness binary vh_sh): 3 (quick) / 40 (thorough) transitions of every stratum (operation x argument class x kind of the named slot), 1/2 sequential "
             "histories of 1 500 events, 1/2 x 300 race rounds.",
